@@ -20,7 +20,12 @@ class C18(Prop):
                   "run (tested, not proved)")
     level_note = "Lean kernel + standard axioms for checker / brute force; the partition algorithms are outside Lean"
     technique = "Lean-verified partition checker and brute-force minimum; differential correspondence"
-    theorems = []
+    theorems = [
+        "PrefVerif.Specs.setPartitions_sound",
+        "PrefVerif.Specs.setPartitions_complete",
+        "PrefVerif.Specs.partitionCert_iff",
+        "PrefVerif.Specs.spOnSubset_iff",
+    ]
     rule = ("strict complete profiles with 1-6 alternatives (odd and even), 1-4 distinct orders, random and planted "
             "(union of single-peaked blocks), every bound k from 1 to m; non-trivial = >= 2 orders and >= 3 alternatives")
     budget = {"quick": 120, "thorough": 1200}
